@@ -76,7 +76,7 @@ var kinds = []kind{
 	{name: "plainstruct", typ: reflect.TypeOf(Plain{})},
 }
 
-var tagNames = []string{"d", "a", "b/c"} // deliberately not in sorted order
+var tagNames = []string{"d", "a", "b/c", "aa"} // deliberately not in sorted order
 
 type svc struct {
 	mu   sync.Mutex
@@ -187,7 +187,7 @@ func TestCheck(t *testing.T) {
 	rep := env.New("C20")
 	rep.Assumptions = []string{
 		"a typed nil struct pointer is not in the statement and is not in the alphabet",
-		"struct shapes: up to 2 (quick) / 3 (thorough) fields from 14 field kinds, with distinct or duplicate tag names, three prefixes, and ordinary / empty / one-field-invalid / one-field-with-trailing-data served values",
+		"struct shapes: up to 2 (quick) / 4 (thorough) fields from 14 field kinds, with distinct or duplicate tag names, three prefixes, and ordinary / empty / one-field-invalid / one-field-with-trailing-data served values",
 	}
 	maxFields := 2
 	if env.Thorough() {
